@@ -45,6 +45,7 @@ type Knobs struct {
 	RewardsPoolFund string // nue
 	Frankenstein    int64
 	MaxGas          int64
+	DelegMaturity   int64 // network delegation: blocks until an undelegation / reward withdrawal is paid (0 = 4)
 	FundingDeadline int64
 	VotingDeadline  int64
 	FundingGoal     string
@@ -288,7 +289,7 @@ func BuildWorld(seed uint64, k Knobs) *World {
 		Fees:    []consensus.BalanceState{},
 		Governance: governance.GovernanceState{
 			FeeOption: feeOpt, ETHCDOption: w.EthOpt, BTCCDOption: btccdo, ONSOptions: onsOp, PropOptions: propOpt,
-			StakingOptions: stakingOption, DelegOptions: network_delegation.Options{RewardsMaturityTime: 4},
+			StakingOptions: stakingOption, DelegOptions: network_delegation.Options{RewardsMaturityTime: delegMaturity(k)},
 			EvidenceOptions: evidenceOption, RewardOptions: rewzOpt,
 		},
 	}
@@ -348,4 +349,11 @@ func (w *World) Lookup(addr keys.Address) *Account {
 func (w *World) Register(a *Account) {
 	w.Lookup(nil)
 	w.byAddr[string(a.Addr)] = a
+}
+
+func delegMaturity(k Knobs) int64 {
+	if k.DelegMaturity > 0 {
+		return k.DelegMaturity
+	}
+	return 4
 }
